@@ -14,7 +14,12 @@ import (
 // Bare integer triples "n g R" are NOT combined into references here (that is
 // the job of the container and indirect-object readers).
 func VerifParseObjects(data []byte) ([]Object, error) {
-	s := newScanner(bytes.NewReader(data), nil, nil)
+	return VerifParseObjectsFrom(bytes.NewReader(data))
+}
+
+// VerifParseObjectsFrom is VerifParseObjects for an arbitrary byte source.
+func VerifParseObjectsFrom(src io.Reader) ([]Object, error) {
+	s := newScanner(src, nil, nil)
 	var res []Object
 	for {
 		err := s.SkipWhiteSpace()
